@@ -245,6 +245,7 @@ pub fn run(sc: &Value, id: usize, out: Out) {
                     "remove_rows" => aff_json(&aff_from(&sc["f"]).remove_rows(sc["rows"].as_array().unwrap().iter().map(|x| x.as_u64().unwrap() as usize)), q),
                     "remove_zero_rows" => aff_json(&aff_from(&sc["f"]).remove_zero_rows(), q),
                     "remove_zero_columns" => aff_json(&aff_from(&sc["f"]).remove_zero_columns(), q),
+                    "rzc_rzr" => aff_json(&aff_from(&sc["f"]).remove_zero_columns().remove_zero_rows(), q),
                     "from_row_iter" => { let f = aff_from(&sc["f"]);
                         let rows: Vec<_> = f.mat.rows().into_iter().zip(f.bias.iter()).collect();
                         aff_json(&AffFunc::from_row_iter(f.indim(), f.outdim(), rows), q) }
